@@ -41,6 +41,11 @@ CHECKS = {
          "For each of the seven parser entry points (HTTP request, HTTP response, WebSocket frame via hook, WebSocket message blocking and non-blocking over a loopback socket pair, JSON, config parse_conf+from_tree) the check feeds every prefix of every seed message, structure-aware mutants (length fields -> boundary/huge values, separators deleted/doubled, multi-byte and invalid UTF-8 at every position, frame length bytes patched), deep nesting, all strings of <=4 (quick) / <=5 (thorough) symbols over a protocol alphabet, random alphabet strings and random bytes, all-at-once and byte-by-byte. Oracle per call: returns Ok/Err (no panic, no process death, no stack overflow on a 2 MiB / 8 MiB stack), terminates within 10 s CPU, and peak + largest single allocation <= 1024 x input + 64 KiB.",
          "Trusts the worker protocol (death attributed to the running case and confirmed in a fresh worker), the counting allocator, and the memory constant (set from the honest worst case ~450x for JSON; a claimed-length allocation below ~1 MiB would not be flagged). Config inputs with `include` or device paths are skipped and counted.",
          "DESIGN.md §5 C03"),
+ "C16": ("exploration",
+         "model-based stateful testing: bounded-exhaustive operation sequences + proptest random sequences against a reference map, lock-order linearisation check for concurrent use, handler-level history invariant",
+         "Every set/get sequence up to length 4 (quick) / 5 (thorough) over 24 operations, for three limit/size/time settings, plus random sequences (to 120 ops, 32 keys, limits 0..64 KiB, time limits 0/1/60) and 2000-op sequences, is applied to the real Cache and to a reference map; after every step all keys ever stored are looked up: a hit must be exactly the latest bytes and MIME type for that (host, path), retrievable bytes must not exceed the limit, and a stored item must be retrievable at once. 1..8 threads use one RwLock<Cache> as the handlers do with operations numbered under the lock, and the log is replayed on the model. Sleep cases check expiry; file_handler/directory_handler run over files rewritten between requests (body = current content or content served before for the same (host, uri)).",
+         "Trusts the reference map model and wall-clock seconds for the few expiry cases (a miss right after a set is tolerated only when time_limit=0 and the second changed). Set sizes never exceed the limit, as the only caller guarantees.",
+         "DESIGN.md §5 C16"),
 }
 
 NOT_YET = "check not built yet (work in progress; see DESIGN.md §5 for the intended design)"
